@@ -987,5 +987,24 @@ func vfC05Capacity(s *vfC05Sink) {
 			}
 		}
 	}
+	// object header capacity: a dataset header brought to every reachable total of 236..255
+	// message bytes by attributes, then a second dataset created and written right behind it
+	// (the header, grown in place, must stay inside the space reserved for it)
+	mkX := vfOp{Op: "mkds", Path: "/x", Type: "f64", Dims: []uint64{4}}
+	fills := vfHeaderFillStates(s.dir, mkX, 236, 255)
+	var totals []int
+	for t := range fills {
+		totals = append(totals, t)
+	}
+	sort.Ints(totals)
+	for _, sb := range []uint8{2, 3} {
+		for _, t := range totals {
+			h := append(append([]vfOp{}, fills[t]...), vfOp{Op: "mkds", Path: "/y", Type: "f64", Dims: []uint64{4}}, vfOp{Op: "write", Path: "/y", Pat: 2}, vfOp{Op: "write", Path: "/x", Pat: 1})
+			cfg := fmt.Sprintf("sb%d/header-capacity(messages=%d)", sb, t)
+			c := vfC05SeqCase(cfg, sb, h, 0)
+			c.name = "capacity " + cfg
+			cases = append(cases, c)
+		}
+	}
 	vkit.ParallelFor(len(cases), func(i int) { s.exec("capacity", cases[i]) })
 }
